@@ -19,7 +19,7 @@
 use common::{catch, hash_str, lib, mix, Engine, Json, Report, Rng, WorkQueue};
 use rlib_bitset::Bitset;
 
-const NS: [usize; 6] = [1, 2, 3, 4, 10, 17];
+const NS: [usize; 8] = [1, 2, 3, 4, 10, 17, 33, 64];
 const POOL: usize = 3;
 const MAX_OPS: usize = 60;
 /// every this many operations (and at the end of a history) all pool members are observed
@@ -37,6 +37,8 @@ macro_rules! dispatch {
             4 => $f::<4>($($args),*),
             10 => $f::<10>($($args),*),
             17 => $f::<17>($($args),*),
+            33 => $f::<33>($($args),*),
+            64 => $f::<64>($($args),*),
             other => panic!("N = {} is not instantiated (use one of {:?})", other, NS),
         }
     };
@@ -922,6 +924,10 @@ fn main() {
                 for idx in lo..hi {
                     let n = NS[(idx % NS.len() as u64) as usize];
                     let k = idx / NS.len() as u64;
+                    // the large capacities cost proportionally more per observation: a quarter of the histories
+                    if n > 17 && k % 8 != 0 {
+                        continue;
+                    }
                     let case_seed = mix(&[seed, 0xC12, n as u64, k]);
                     run_history_dyn(n, case_seed, rep, false);
                 }
